@@ -587,7 +587,7 @@ def r2_must_call(run):
     aaccept = [r.id for r in acfg.by_kind("return")
                if is_true_const(r.ast.value)]
     checks = _call_nodes_with_args(acfg, "validate_on_or_after",
-                                   "authn_statement.session_not_on_or_after")
+                                   "self.assertion.authn_statement[0].session_not_on_or_after")
     key = fa.qual + "::validate_on_or_after(session_not_on_or_after)"
     if not checks:
         run.violated("R2", key, "SessionNotOnOrAfter is no longer validated",
@@ -595,7 +595,7 @@ def r2_must_call(run):
     else:
         wit = unguarded_path(
             acfg, acfg.entry, aaccept, checks,
-            just(acfg, ("authn_statement.session_not_on_or_after", False),
+            just(acfg, ("self.assertion.authn_statement[0].session_not_on_or_after", False),
                  ("optional", True)))
         run.check(wit is None, "R2", key,
                   "validated whenever SessionNotOnOrAfter is present",
@@ -962,7 +962,7 @@ def r6_session_expiry(run):
         fnd = fcfg.node_of_stmt(st)
         ok = txt == "0" or (fnd is not None and fcfg.same(
             v, fnd.id, "calendar.timegm(time_util.str_to_time("
-            "authn_statement.session_not_on_or_after))"))
+            "self.assertion.authn_statement[0].session_not_on_or_after))"))
         run.check(ok, "R6", "%s::%s" % (f.qual, norm_text(st))[:160],
                   "0 or the parsed SessionNotOnOrAfter",
                   "session expiry written from %s" % txt,
